@@ -102,7 +102,20 @@ def run_case(case):
                         attr, cls, st, type(val).__name__ if st == 'raise' else '', changed), case, key)
         return held(case, key)
     if kind == 'coordlabel':
-        m, faces = small_mesh(cls)
+        if case.get('form') == 'NL-shared-args':
+            # the (N, L) constructor form, called with the very numbers that grids of the OTHER coordinate systems of the same
+            # dimension were built from a moment ago in this process: the labels (and volumes) are those of THIS class
+            args_ = [2, 3, 2][:NDIM[cls]] + [1.0] * NDIM[cls]
+            for other in CLASSES:
+                if NDIM[other] == NDIM[cls] and other != cls:
+                    getattr(pf, other)(*args_)
+            m = getattr(pf, cls)(*args_)
+            st_v, val_v = outcome(lambda: np.asarray(m.cellvolume))
+            if st_v != 'ok' or not np.all(val_v > 0):
+                return viol('coordlabel/shared-args-volume', '%s(%r) built after the other %d-D classes with the same arguments: cellvolume %s' % (
+                    cls, args_, NDIM[cls], 'raised %s' % type(val_v).__name__ if st_v != 'ok' else 'is not positive'), case, key)
+        else:
+            m, faces = small_mesh(cls)
         lab, cont = case['label'], case['container']
         obj = getattr(m, cont)
         st, val = outcome(lambda: getattr(obj, lab))
@@ -352,6 +365,7 @@ def plan(tier, seed):
                 cases.append({'kind': 'complabel', 'cls': cls, 'label': lab, 'mode': mode})
             for cont in ('cellcenters', 'facecenters', 'cellsize'):
                 cases.append({'kind': 'coordlabel', 'cls': cls, 'label': lab, 'container': cont})
+                cases.append({'kind': 'coordlabel', 'cls': cls, 'label': lab, 'container': cont, 'form': 'NL-shared-args'})
         sides = [s for k in range(nd) for s in SIDES[k]]
         for r in range(1, len(sides) + 1):
             for sub in itertools.combinations(sides, r):
